@@ -73,11 +73,33 @@ def props_files(prop):
     return seen
 
 
+def strip_comments(lines):
+    """Yield (lineno, text) with Lean block and line comments removed (crude but conservative)."""
+    depth = 0
+    for i, line in enumerate(lines, 1):
+        out = ''
+        j = 0
+        while j < len(line):
+            if line.startswith('/-', j):
+                depth += 1
+                j += 2
+            elif line.startswith('-/', j) and depth > 0:
+                depth -= 1
+                j += 2
+            elif depth == 0 and line.startswith('--', j):
+                break
+            else:
+                if depth == 0:
+                    out += line[j]
+                j += 1
+        yield i, out
+
+
 def theorems_of(module):
     path = os.path.join(LEAN, *module.split('.')) + '.lean'
     out = []
     ns = []
-    for i, line in enumerate(open(path), 1):
+    for i, line in strip_comments(open(path)):
         m = re.match(r'\s*namespace\s+(\S+)', line)
         if m:
             ns.append(m.group(1))
@@ -94,7 +116,12 @@ def build(prop, targets_extra=()):
     mods = props_files(prop)
     targets = ['PyElf.Props.%s' % prop] if mods else []
     targets += ['driver'] + list(targets_extra)
+    # the driver first, alone: a stale binary must never stand in for one that no longer builds
+    rc_d, out_d, dt_d = sh(['lake', 'build', 'driver'], cwd=LEAN, timeout=3000)
+    if rc_d != 0 and os.path.exists(common.DRIVER):
+        os.unlink(common.DRIVER)
     rc, out, dt = sh(['lake', 'build'] + targets, cwd=LEAN, timeout=3000)
+    out = out_d + out if rc_d != 0 else out
     thms = []
     for m in mods:
         thms += theorems_of(m)
@@ -159,26 +186,9 @@ def audit(prop, thms):
     for path in import_closure(prop):
         if os.sep + 'Gen' + os.sep in path:
             continue
-        in_block = 0
-        for i, line in enumerate(open(path), 1):
-            s = line
-            # strip comments (line and block) crudely but conservatively
-            if in_block:
-                if '-/' in s:
-                    in_block = 0
-                    s = s.split('-/', 1)[1]
-                else:
-                    continue
-            if '/-' in s:
-                pre, rest = s.split('/-', 1)
-                if '-/' in rest:
-                    s = pre + rest.split('-/', 1)[1]
-                else:
-                    s = pre
-                    in_block = 1
-            s = s.split('--', 1)[0]
+        for i, s in strip_comments(open(path)):
             if FORBIDDEN.search(s):
-                bad_tokens.append('%s:%d: %s' % (os.path.relpath(path, LEAN), i, line.strip()))
+                bad_tokens.append('%s:%d: %s' % (os.path.relpath(path, LEAN), i, s.strip()))
     if not thms:
         return {'axioms': {}, 'bad_axioms': {}, 'bad_tokens': bad_tokens, 'ok': not bad_tokens}
     path = os.path.join(LEAN, 'Audit_%s.lean' % prop)
